@@ -14,7 +14,7 @@ import shutil
 import tempfile
 from pathlib import Path
 
-from ..coqlit import Err, Ok, cbool, clist, cnat
+from ..coqlit import Err, Ok, cbool, clist, cnat, cstr
 
 PROP = "C07"
 RUN = "Run_C07"
@@ -30,10 +30,15 @@ RULE = ("all 259 geometries (full shapes of rank 0..3 with sizes 1..3 x all 2^ra
         "slice / negative / out-of-range / wrong-rank keys, every read operation, persist-reopen) up to length 2 (3 in "
         "the thorough tier) for geometries with <= 4 elements, random up to length 12 otherwise; keys from ints in "
         "[-size-1, size], slices with a,b in None,-4..4 and steps None,1,2,3,-1,-2,0, wrong-rank tuples, bare ints; "
+        "element values: distinct ints, and in ~40% of the dumps the value None, 0 and '' (scalars and members of "
+        "internal arrays; list / ndarray / object ndarray); a dedicated stream per geometry: dump, persist+reopen, dump "
+        "again onto an existing index, persist+reopen, read; another one: store None / 0 / '' and read every cell back; "
         "non-trivial = a store case with at least one accepted dump followed by a read; distinct by (backend, geometry, ops)")
 ASSUMPTIONS = [
     "only the three importable backends (file_array, dict, shared_memory_dict); zarr backends cannot be imported here",
-    "values passed to dump have the internal shape (a scalar when internal_shape == ()); elements are ints",
+    "values passed to dump have the internal shape (a scalar when internal_shape == ()); elements are ints (incl. 0), "
+    "the Python value None (a value, distinct from masked) and strings (incl. ''); ints and strings are mixed in one "
+    "internal array only when it is an object ndarray (np.asarray of a mixed list is NumPy coercion, not storage)",
     "every axis size >= 1; linear indices of has_index/get_from_index are in [0, size)",
     "get_from_index of a missing element must raise; the exception class is not fixed by the property "
     "(FileNotFoundError for FileArray, KeyError for DictArray)",
@@ -91,6 +96,8 @@ def _elem(x):
         return bool(x)
     if isinstance(x, (int, np.integer)):
         return int(x)
+    if isinstance(x, str):  # incl. np.str_
+        return str(x)
     raise TypeError(f"unexpected element {type(x)}: {x!r}")
 
 
@@ -278,10 +285,18 @@ def _nats(l):
     return "[" + ";".join(str(x) for x in l) + "]%nat"
 
 
+def _elem_lit(x):
+    if x is None:
+        return "EN"
+    if isinstance(x, str):
+        return f"ES {cstr(x)}"
+    return f"EI ({x})" if x < 0 else f"EI {x}"
+
+
 def _op_lit(op):
     k = op[0]
     if k == "dump":
-        return f"Dump {_key_lit(op[1])} [{';'.join(str(x) for x in op[2])}]"
+        return f"Dump {_key_lit(op[1])} [{';'.join(_elem_lit(x) for x in op[2])}]"
     if k == "get":
         return f"Get {_key_lit(op[1])}"
     if k == "has":
@@ -367,6 +382,46 @@ class Fresh:
         return [self.n * 10 + j if _prod(ish) <= 10 else self.n * 100 + j for j in range(_prod(ish))]
 
 
+STRS = ["", "", "a", "bc"]
+
+
+def spice(rng, vals, ish, p=0.4):
+    """Replace elements of a fresh int value by the Python value None (a VALUE, not a missing element) and by falsy
+    non-None values (0, ""), for scalars and for members of internal arrays.  Returns (values, allowed forms): ints and
+    strings are only mixed in an object array (np.asarray of a mixed list would turn the ints into strings)."""
+    forms = ["list", "nd", "ndobj"]
+    if rng.random() >= p:
+        return vals, forms
+    vals = list(vals)
+    n = len(vals)
+    some = lambda: rng.sample(range(n), rng.randint(1, n))
+    mode = rng.choice(["none", "none", "none_all", "zero", "str", "str_none", "mixed"])
+    if mode == "none":
+        for j in some():
+            vals[j] = None
+    elif mode == "none_all":
+        vals = [None] * n
+    elif mode == "zero":
+        for j in some():
+            vals[j] = 0
+        if rng.random() < 0.4:
+            vals[rng.randrange(n)] = None
+    elif mode == "str":
+        vals = [rng.choice(STRS) for _ in range(n)]
+    elif mode == "str_none":
+        vals = [rng.choice(STRS + [None, None]) for _ in range(n)]
+    else:
+        vals = [rng.choice([v, None, 0, "", "a"]) for v in vals]
+        if ish:
+            forms = ["ndobj"]
+    return vals, forms
+
+
+def gen_value(rng, fresh, ish, p=0.4):
+    vals, forms = spice(rng, fresh.value(ish), ish, p)
+    return vals, rng.choice(forms)
+
+
 def gen_op(rng, geo, fresh, malformed=False):
     ext, ish, mask = geo
     full = _full(ext, ish, mask)
@@ -374,7 +429,8 @@ def gen_op(rng, geo, fresh, malformed=False):
     r = rng.random()
     if r < 0.36:
         key, bare = gen_key(rng, ext, p_slice=0.2)
-        return ["dump", key, fresh.value(ish), rng.choice(["list", "nd", "ndobj"]), bare]
+        vals, form = gen_value(rng, fresh, ish)
+        return ["dump", key, vals, form, bare]
     if r < 0.68:
         key, bare = gen_key(rng, full, p_slice=0.35)
         return ["get", key, bare]
@@ -404,6 +460,9 @@ def alphabet(geo, fresh):
         ops.append(["dump", [["s", None, None, None]] * len(ext), fresh.value(ish), "list", False])
         ops.append(["dump", [ext[0]] + [0] * (len(ext) - 1), fresh.value(ish), "list", False])  # out of range
     ops.append(["dump", [0] * (len(ext) + 1), fresh.value(ish), "list", False])  # wrong rank
+    n = _prod(ish)
+    ops.append(["dump", [0] * len(ext), [None] * n, "list", False])  # the VALUE None
+    ops.append(["dump", [-1] * len(ext), ([0, None, ""] * n)[:n], "ndobj", False])  # falsy values
     for p in itertools.product(*map(range, full)):
         ops.append(["get", list(p), False])
     ops.append(["get", [["s", None, None, None]] * len(full), False])
@@ -419,6 +478,83 @@ def alphabet(geo, fresh):
     ops.append(["getidx", 0])
     ops.append(["getidx", size - 1])
     return ops
+
+
+def _alias(rng, e, ext):
+    return [k - d if rng.random() < 0.4 else k for k, d in zip(e, ext)]
+
+
+def redump_case(rng, geo, b):
+    """dump; persist+reopen; dump again onto an index that already exists (no new index); persist+reopen; read."""
+    ext, ish, mask = geo
+    fresh = Fresh()
+    size = _prod(ext)
+    pos = [list(e) for e in itertools.product(*map(range, ext))]
+    ops = []
+    if ext and rng.random() < 0.3:
+        vals, form = gen_value(rng, fresh, ish, 0.25)
+        ops.append(["dump", [["s", None, None, None]] * len(ext), vals, form, False])
+        present = pos
+    else:
+        present = rng.sample(pos, rng.randint(1, min(3, len(pos))))
+        for e in present:
+            vals, form = gen_value(rng, fresh, ish, 0.25)
+            ops.append(["dump", _alias(rng, e, ext), vals, form, False])
+    if rng.random() < 0.3:
+        ops.append(rng.choice([["to_array"], ["mask_linear"], ["has", rng.randrange(size)]]))
+    ops.append(["reopen"])
+    for _ in range(rng.choice([1, 1, 2])):
+        e = rng.choice(present)
+        vals, form = gen_value(rng, fresh, ish, 0.25)
+        ops.append(["dump", _alias(rng, e, ext), vals, form, False])
+        if rng.random() < 0.25:
+            ops.append(["get", _full_key(e, [0] * len(ish), mask), False])
+    ops.append(["reopen"])
+    lin = 0
+    for k, d in zip(e, ext):
+        lin = lin * d + k
+    for j in itertools.product(*map(range, ish)):
+        ops.append(["get", _full_key(e, list(j), mask), False])
+        if rng.random() < 0.5:
+            break
+    ops += [["getidx", lin], ["to_array"]]
+    if rng.random() < 0.5:
+        ops.append(["get", [["s", None, None, None]] * len(mask), False])
+    return store_case(b, geo, ops)
+
+
+def falsy_case(rng, geo, b):
+    """Store None / 0 / '' (whole values and members of internal arrays) and read every cell back in every way."""
+    ext, ish, mask = geo
+    n = _prod(ish)
+    size = _prod(ext)
+    pos = [list(e) for e in itertools.product(*map(range, ext))]
+    ops = []
+    chosen = rng.sample(pos, rng.randint(1, min(2, len(pos))))
+    for e in chosen:
+        kind = rng.choice(["none", "none", "zero", "empty", "mix"])
+        vals = {"none": [None] * n, "zero": [0] * n, "empty": [""] * n,
+                "mix": [rng.choice([None, 0, ""]) for _ in range(n)]}[kind]
+        form = "ndobj" if kind == "mix" and ish else rng.choice(["list", "nd", "ndobj"])
+        ops.append(["dump", _alias(rng, e, ext), vals, form, len(ext) == 1 and rng.random() < 0.3])
+    if rng.random() < 0.3:
+        ops.append(["reopen"])
+    for e in chosen:
+        for j in itertools.product(*map(range, ish)):
+            ops.append(["get", _full_key(_alias(rng, e, ext), list(j), mask), len(mask) == 1 and rng.random() < 0.3])
+            if len(ops) > 9:
+                break
+    lin = 0
+    for k, d in zip(chosen[0], ext):
+        lin = lin * d + k
+    ops += [["has", lin], ["getidx", lin], ["get", [["s", None, None, None]] * len(mask), False], ["to_array"],
+            ["mask_linear"]]
+    return store_case(b, geo, ops)
+
+
+def _full_key(e, j, mask):
+    ei, ji = iter(e), iter(j)
+    return [next(ei) if m else next(ji) for m in mask]
 
 
 def store_case(b, geo, ops, own=False):
@@ -481,6 +617,15 @@ def generate(rng, tier, mult):
             malformed = rng.random() < 0.15
             ops = [gen_op(rng, g, fresh, malformed) for _ in range(rng.randint(1, 12))]
             cases.append(store_case(b, g, ops))
+    # ---- overwrite an existing index between two persists, then reopen (stale persisted data)
+    for g in geos:
+        for j in range((1 if tier == "quick" else 5) * mult):
+            cases.append(redump_case(rng, g, ["dict", "shm", "dict", "file"][(j + len(g[0])) % 4] if tier != "quick"
+                                     else rng.choice(["dict", "dict", "shm", "file"])))
+    # ---- the values None / 0 / '' written and read back cell by cell
+    for g in geos:
+        for j in range(((1 if tier == "quick" else 4) + (0 if g[1] else 1)) * mult):  # one more for scalar elements
+            cases.append(falsy_case(rng, g, rng.choice(["dict", "dict", "shm", "file"])))
     # ---- a few shared-memory arrays with their own manager process (the default constructor path)
     for g in rng.sample(geos, 3 if tier == "quick" else 12):
         fresh = Fresh()
@@ -508,7 +653,27 @@ def distribution(c):
         d["rank"] = len(c["mask"])
         d["n_internal_axes"] = len(c["int"])
         d["len"] = min(len(c["ops"]), 12)
+        d["none_value"] = any(op[0] == "dump" and None in op[2] for op in c["ops"])
+        d["falsy_value"] = any(op[0] == "dump" and (0 in op[2] or "" in op[2]) for op in c["ops"])
+        d["redump_between_persists"] = _redump(c["ops"])
     return d
+
+
+def _redump(ops):
+    """reopen ... dump ... reopen ... read, somewhere in the sequence"""
+    st = 0
+    for op in ops:
+        if st == 0 and op[0] == "dump":
+            st = 1
+        elif st == 1 and op[0] == "reopen":
+            st = 2
+        elif st == 2 and op[0] == "dump":
+            st = 3
+        elif st == 3 and op[0] == "reopen":
+            st = 4
+        elif st == 4 and op[0] in ("get", "getidx", "to_array"):
+            return True
+    return False
 
 
 def finding_id(c, impl_obs, kind):
